@@ -339,7 +339,7 @@ pub (crate) fn bid_handle_UF_128_rem(sgn: BID_UINT64, mut expon: i32, CQ: &BID_U
         }
     }
 
-    if is_inexact(*pfpsc) {
+    if R != 0 {
         __set_status_flags(pfpsc, StatusFlags::BID_UNDERFLOW_EXCEPTION);
     } else {
         status = StatusFlags::BID_INEXACT_EXCEPTION;
